@@ -425,10 +425,18 @@ func layerGoString(i interface{}, b *bytes.Buffer) {
 	}
 	switch v.Kind() {
 	case reflect.Ptr, reflect.Interface:
+		if v.IsNil() {
+			fmt.Fprintf(b, "%#v", v)
+			return
+		}
 		if v.Kind() == reflect.Ptr {
 			b.WriteByte('&')
 		}
-		layerGoString(v.Elem().Interface(), b)
+		if e := v.Elem(); e.CanInterface() {
+			layerGoString(e.Interface(), b)
+		} else {
+			layerGoString(e, b)
+		}
 	case reflect.Struct:
 		t := v.Type()
 		b.WriteString(t.String())
@@ -442,7 +450,7 @@ func layerGoString(i interface{}, b *bytes.Buffer) {
 			} else if v.Field(i).Kind() == reflect.Struct {
 				fmt.Fprintf(b, "%s:", t.Field(i).Name)
 				layerGoString(v.Field(i), b)
-			} else if v.Field(i).Kind() == reflect.Ptr {
+			} else if v.Field(i).Kind() == reflect.Ptr && !v.Field(i).IsNil() {
 				b.WriteByte('&')
 				layerGoString(v.Field(i), b)
 			} else {
